@@ -76,7 +76,7 @@ fn mixed(rep: &mut Report, seed: u64, threads: usize, rounds: u64) {
                         }
                         2 => {
                             // DOM histories: UniqueId collisions call UniqueId::now from every thread
-                            let cfg = Cfg { exhaustive: false, ndoms: 2, init_nodes: 3, steps: 40, max_live: 16, uid_pool: 2, rich_props: true, max_insert: 3, scenario: 0 };
+                            let cfg = Cfg { exhaustive: false, ndoms: 2, init_nodes: 3, steps: 40, max_live: 16, uid_pool: 2, uid_base: 0, rich_props: true, max_insert: 3, scenario: 0 };
                             let mut ch = RandCh(Rng::derive(seed, "tsan-dom", t as u64 * 1000 + i));
                             let mut c = Report::new("C12");
                             domops::run_history(&mut ch, &cfg, &mut c, "C12", json!({"cmd": "tsan", "what": "mixed", "seed": seed}), false);
